@@ -9,4 +9,14 @@ CONSTANTS
   Shapes = {"first", "last"}
   DepKindPatterns <- DepKinds3
   LabelPatterns <- Labels3
-INVARIANTS TypeOK ErrorsExactlyWhenDocumented InputsExact FeeConservation SharesSumToFee ScriptsIntended RedeemerAmounts ChangeIffPositive EvenSplit SweepKeepsFunds
+  PropOutputs <- PropOutputs4
+  PropTxStates <- TxStates
+  PropDepOptions = {"absent", "b1", "b2", "other"}
+  PropWrongAll = FALSE
+  PropMainVals = {13, 1000003}
+  PropMaxKeys = 3
+  PropScripts = {"rA", "rB", "rC"}
+  PropReqVals = {4, 9}
+  PropFees = {5}
+  PropShapes = {"default", "last"}
+INVARIANTS TypeOK ErrorsExactlyWhenDocumented InputsExact FeeConservation SharesSumToFee ScriptsIntended RedeemerAmounts ChangeIffPositive EvenSplit SweepKeepsFunds SweepSpendsNamedUtxos SweepProposalErrors RedemptionPaysNamedRequests RedemptionProposalErrors
